@@ -23,8 +23,25 @@ CLAIMED = {
          "in-Coq differential check over all 1310 ordered predefined unit pairs and random "
          "user-declared chains, with scales taken from an independent SI table.",
          "DESIGN.md 5 (C01)",
-         "The chain-product characterisation of scales is proved for the registry model in C15/C20; "
-         "here scales are inputs of the model (independent reference), not computed by it."),
+         "That a unit's scale is the product of the factors along its chain of definitions is proved "
+         "on the directory model (C15_scale_denotes_definition) and, for the catalogue, in C20; here "
+         "scales are inputs of the model (independent reference), not computed by it."),
+ 'C02': ("Axiom-free Coq theorems over the directory model, for EVERY directory reachable by a finite "
+         "history of (guarded) declarations and every cache content: resolution of a unit product / "
+         "quotient / power returns (factor, unit) that denotes exactly the product / quotient / power "
+         "of the operands' values (rational factor x exponent of every base unit), or (factor, None) "
+         "exactly when the dimensions cancel; quantity-level operators apply the constructor once to "
+         "the exact amount (one rounding); failure is UndefinedResultError exactly when no registered "
+         "definition matches, and nothing is cached then; scalars keep type and unit. In-Coq "
+         "differential check: the model replays the declaration script of the predefined catalogue "
+         "(extracted from /repo on every run) and of random user catalogues and is compared with "
+         "the library on unit pairs x {*,/} x operand kinds, powers, numbers; independent oracle "
+         "computes value, dimension and type from its own bookkeeping and the SI table.",
+         "DESIGN.md 5 (C02), 10",
+         "Normalised definitions are represented by their denotation (that Term.normalized computes it is C07). "
+         "That the result TYPE has exactly the combined dimension is proved as far as 'one type per dimension' "
+         "(C15_one_class_per_dimension) and 'the result unit's definition denotes the product'; the link "
+         "'definition of a unit denotes its type's dimension' is validated by the correspondence and oracle, not proved."),
  'C03': ("Axiom-free Coq theorems: mixed types -> IncompatibleUnitsError / == False, numbers -> "
          "TypeError, sum has the left unit and exactly the sum of reference values (also on the "
          "shared grid of quantized types), commutativity, associativity, inverse, distributivity, "
@@ -38,6 +55,17 @@ CLAIMED = {
          "sorted().",
          "DESIGN.md 5 (C04)", "Representation independence is a typing fact of the model (amounts are Q); "
          "its tie to the code is the correspondence, which generates both representations."),
+ 'C05': ("Axiom-free Coq theorems: the constructor puts every amount on the unit's grid, selects the "
+         "multiple prescribed by the default mode (declarative definition of the 8 modes), error < 1 "
+         "quantum, <= 1/2 under half modes, never on the wrong side under directed modes; every "
+         "producing operation of the quantity layer equals the constructor applied to the exact "
+         "result on the stored operands (one rounding); by induction over producing operations "
+         "every produced quantity is on the grid. Products / powers / reflected division are "
+         "covered by C02 (build = one constructor call), exchange rates by C10. In-Coq differential "
+         "check on all predefined quantized units x 8 modes x tie offsets, currencies, user quanta, "
+         "all operations; oracle recomputes 'exact result rounded once' with its own rounding.",
+         "DESIGN.md 5 (C05)", "decimalfp's Decimal(x, 0) is modelled by rnd_ref (validated by C13 on every run)."),
+ 'C08': None, 'C11': None, 'C12': None, 'C14': None,
  'C13': ("Axiom-free Coq theorems: the repo's own rounding helper (_floordiv_rounded, "
          "_quantize_fraction) is re-translated from the source on every run and proved to meet a "
          "declarative definition of all 8 decimal rounding modes for all integers; that definition "
@@ -47,7 +75,50 @@ CLAIMED = {
          "In-Coq differential check on tie grids x 8 modes x both representations.",
          "DESIGN.md 5 (C13), 3.1", "decimalfp's own rounding (Decimal path) is modelled by rnd_ref and "
          "validated, not proved."),
+ 'C15': ("Axiom-free Coq theorems, by induction over ALL finite declaration histories (types, "
+         "scaled / term-defined / derived units, currencies; accepted and rejected steps): symbols "
+         "unique and found as the identical object, units never change, each unit listed by exactly "
+         "the type it was created for, one type per dimension, a unit's scale is exactly what its "
+         "definition denotes (definition = scale x reference unit in the group of values), the "
+         "reference unit of a derived type is the product of the base types' reference units, the "
+         "factory dispatches to the unit's type, and the rejections (taken dimension, duplicate / "
+         "empty symbol, definition of another type or dimension). In-Coq differential check on "
+         "random histories with ~30 % invalid steps followed by all directory queries; oracle = "
+         "the harness' own bookkeeping.",
+         "DESIGN.md 5 (C15), 10", "Guards (stated in the theorems): numeric factors non-zero; a definition in a type with "
+         "reference unit refers to units that have a scale; an explicit reference symbol for a derived type "
+         "presupposes reference units of the types of its definition."),
+ 'C16': ("Axiom-free Coq theorems: the model executes a type declaration in the order of the code's "
+         "side effects (reference unit registered before the type); in every coherent directory "
+         "(in particular every reachable one) a raised exception implies the directory is literally "
+         "unchanged, for all declaration kinds. In-Coq differential check plus twin-process oracle: "
+         "every history with faults is run as given and with the rejected steps left out, "
+         "observations (Unit(sym), units(), factory parse) and later re-declarations must agree. "
+         "Converter updates: C11_failed_update_unchanged.",
+         "DESIGN.md 5 (C16), 10", "The order of side effects inside QuantityMeta.__new__/__init__ is modelled by hand; "
+         "the tie is the correspondence (directory observations after every history)."),
+ 'C17': ("Axiom-free Coq theorems: for every reachable directory and EVERY reachable cache content a "
+         "successful unit product / quotient denotes the product / quotient of the operands' values "
+         "(which mentions neither cache nor declaration order); cached and recomputed results have "
+         "equal values; operations preserve the invariants; undefined results are not cached and "
+         "become defined once a unit for the dimension is registered. In-Coq differential check "
+         "with histories, plus process-pair oracle: same declarations in another order and no "
+         "history, values (amount in base units, dimension, type) must be equal.",
+         "DESIGN.md 5 (C17), 10", "That the implementation has no further hidden memo is what the process pairs test; "
+         "the theorem is about the model's cache."),
 }
+AGENT_CLAIMS = os.path.join(V, 'tools', 'claims')
+for pid in list(CLAIMED):
+    if CLAIMED[pid] is None:
+        fn = os.path.join(AGENT_CLAIMS, pid + '.json')
+        if os.path.exists(fn):
+            CLAIMED[pid] = tuple(json.load(open(fn)))
+        else:
+            del CLAIMED[pid]
+for fn in sorted(os.listdir(AGENT_CLAIMS)) if os.path.isdir(AGENT_CLAIMS) else []:
+    pid = fn[:-5]
+    if pid not in CLAIMED:
+        CLAIMED[pid] = tuple(json.load(open(os.path.join(AGENT_CLAIMS, fn))))
 
 TECH = "Coq proof over Gallina model (generated + hand-written), in-Coq differential correspondence"
 
